@@ -97,10 +97,16 @@ package connlimiter
 //
 //@ pred LC(c *limitConn) = c.Conn != nil && c.serverInfo != nil && connOwner[c] != nil && LL(connOwner[c])
 //
+// casWins counts the compare-and-swap operations won by the calling goroutine:
+// the slot of a connection is given back only by the one Close call that won
+// the swap of isClosed, whatever other Close calls run at the same time.
+//@ ghost casWins int
 //@ func (*limitConn).Close
 //@   property C18
 //@   requires LC(c) && (!c.isClosed ==> mytok > 0)
-//@   modifies c.isClosed, connOwner[c].isClosed, connOwner[c].counter.*, tok, mytok
+//@   modifies c.isClosed, connOwner[c].isClosed, connOwner[c].counter.*, tok, mytok, casWins
+//@   ensures  slot-released-only-by-the-winner-of-the-swap: mytok == old(mytok) - 1 ==> casWins == old(casWins) + 1
+//@   ensures  casWins == old(casWins) ==> mytok == old(mytok)
 //@   ensures  released-once: !old(c.isClosed) ==> c.isClosed && mytok == old(mytok) - 1
 //@   ensures  no-second-release: old(c.isClosed) ==> mytok == old(mytok) && err != nil
 
